@@ -2,7 +2,11 @@ package harness
 
 import (
 	"context"
+	"fmt"
+	"os"
 	"path/filepath"
+	"strings"
+	"time"
 
 	"google.golang.org/grpc"
 	"google.golang.org/grpc/metadata"
@@ -97,4 +101,34 @@ func SeqQLCtx(ctx context.Context, seqql bool) context.Context {
 		v = "true"
 	}
 	return metadata.NewIncomingContext(ctx, metadata.Pairs("use-seq-ql", v))
+}
+
+// WaitAsyncIdle waits until every asynchronous search this store has persisted answers "done"
+// through the store's own handler (the searcher has no stop: a search still running when the
+// test removes the directory ends the process with a fatal log; the in-memory state the handler
+// reads is updated after the last file operation).  The ids come from the .info file names.
+func (a *API) WaitAsyncIdle(timeout time.Duration) error {
+	dir := filepath.Join(a.Store.Dir, "async_searches")
+	deadline := time.Now().Add(timeout)
+	for {
+		busy := ""
+		ents, _ := os.ReadDir(dir)
+		for _, e := range ents {
+			id, ok := strings.CutSuffix(e.Name(), ".info")
+			if !ok {
+				continue
+			}
+			r, err := a.G.FetchAsyncSearchResult(context.Background(), &sapi.FetchAsyncSearchResultRequest{SearchId: id, Size: 1})
+			if err == nil && !r.Done {
+				busy = id
+			}
+		}
+		if busy == "" {
+			return nil
+		}
+		if time.Now().After(deadline) {
+			return fmt.Errorf("async search %s still running after %s", busy, timeout)
+		}
+		time.Sleep(2 * time.Millisecond)
+	}
 }
